@@ -96,13 +96,15 @@ type report struct {
 	Notes       []string               `json:"notes,omitempty"`
 
 	distinct map[uint64]struct{}
+	nSpec    map[string]int
+	nCorr    map[string]int
 	start    time.Time
 	opts     runOpts
 }
 
 func newReport(prop string, o runOpts) *report {
 	return &report{Property: prop, Tier: o.tier, Seed: o.seed, Hist: map[string]int{}, Extra: map[string]interface{}{},
-		distinct: map[uint64]struct{}{}, start: time.Now(), opts: o}
+		distinct: map[uint64]struct{}{}, nSpec: map[string]int{}, nCorr: map[string]int{}, start: time.Now(), opts: o}
 }
 
 // count records one evaluated case; key identifies the canonical input,
@@ -125,14 +127,18 @@ func (r *report) sample(s interface{}) {
 	}
 }
 
+// failures are kept up to a cap per tag, so that a frequent (e.g. known)
+// failure cannot crowd out a different one
 func (r *report) specFail(tag, what string, replay interface{}) {
-	if len(r.SpecFails) < 200 {
+	r.nSpec[tag]++
+	if r.nSpec[tag] <= 25 {
 		r.SpecFails = append(r.SpecFails, failure{"spec", tag, what, replay})
 	}
 }
 
 func (r *report) corrFail(tag, what string, replay interface{}) {
-	if len(r.CorrFails) < 200 {
+	r.nCorr[tag]++
+	if r.nCorr[tag] <= 25 {
 		r.CorrFails = append(r.CorrFails, failure{"correspondence", tag, what, replay})
 	}
 }
@@ -212,7 +218,7 @@ func (r *report) finish() int {
 		if k := isKnown(f.Tag); k != nil {
 			if !seenKnown[f.Tag] {
 				seenKnown[f.Tag] = true
-				line := fmt.Sprintf("KNOWN-FINDING: property=%s %s", r.Property, k.text)
+				line := "KNOWN-FINDING: " + k.text
 				fmt.Println(line)
 				r.Known = append(r.Known, line)
 			}
@@ -251,6 +257,8 @@ func (r *report) finish() int {
 		r.NoInput = true
 		status = 1
 	}
+	r.Extra["spec_failures_by_tag"] = r.nSpec
+	r.Extra["correspondence_failures_by_tag"] = r.nCorr
 	r.WallS = time.Since(r.start).Seconds()
 	keys := make([]string, 0, len(r.Hist))
 	for k := range r.Hist {
